@@ -12,6 +12,8 @@ Clauses(ev) ==
             \* removes triangles from the shape and from its partitions alike), in memory and in the reloaded file
             \cup (IF ev.checkParts /\ ev.t.nv > 0 /\ Len(ev.t.parts) > 0 /\ PartsIndexViol(ev.t) = {}
                   THEN V(BagEq(AllPartTris(ev.t), CanonSeq(ev.t.tris)), "PartitionsStillHoldEveryTriangleOnce") ELSE {})
+            \* ... and the dismember list still has one entry per partition
+            \cup (IF ev.checkParts /\ ev.t.nv > 0 THEN V(~ev.t.isDismember \/ Len(ev.t.dismember) = Len(ev.t.parts), "DismemberListAligned") ELSE {})
             \cup (IF ev.checkParts /\ ev.reloaded /\ Len(ev.r.parts) > 0 /\ PartsIndexViol(ev.r) = {}
                   THEN Tag(V(BagEq(AllPartTris(ev.r), CanonSeq(ev.r.tris)), "PartitionsStillHoldEveryTriangleOnce"), "reload") ELSE {})
       [] ev.e = "segments" ->
